@@ -638,7 +638,7 @@ func main() {
 	sh := &lib.Shards{Dir: run.Out, Imports: "From ELA Require Import model.C22_CrState corr.C22_corr.", CaseType: "C22_corr.case",
 		Mismatch: "C22_corr.mismatches", Scope: "Z", PerShard: 40}
 	variants := []variant{{false, false}, {true, false}, {true, true}, {false, true}}
-	nh := run.N(40, 800)
+	nh := run.N(40, 400)
 	id := 0
 	for i := 0; i < nh; i++ {
 		v := variants[i%len(variants)]
